@@ -12,8 +12,8 @@ from vlib.cosched import harness as H
 from vlib.cosched.sched import Abort
 
 FLAVOURS = ["asyncio", "trio", "threading"]
-REGISTRATIONS = ["queued", "outside", "from:asyncio", "from:trio", "from:threading",
-                 "service-before", "service-after"]
+REGISTRATIONS = ["queued", "outside", "outside-early", "from:asyncio", "from:trio",
+                 "from:threading", "service-before", "service-after"]
 WHEN = ["first", "checkpoint", "1s"]
 
 
@@ -75,6 +75,15 @@ class Scenario:
                             "steps": [("spin", None)]})
         elif bystanders == "blocked":
             kit.submit({"id": "by-threading", "flavour": "threading", "steps": [("block",)]})
+
+        def outside_early(desc):
+            # does not wait for the runtime: wherever the schedule lets the call land
+            kit.submit(desc)
+
+        for desc, reg in list(late):
+            if reg == "outside-early":
+                late.remove((desc, reg))
+                env.spawn(outside_early, "early-" + desc["id"], desc)
 
         def outside():
             runtime.running.wait()
@@ -160,9 +169,17 @@ def scenario_params(tier):
     kinds = ([("raise", k) for k in K.EXCEPTION_KINDS + K.BASE_EXCEPTION_KINDS]
              + [("return", k) for k in K.VALUE_KINDS])
     out = []
-    # 1. full product flavour x kind x registration, failure at the first step
+    # 1. flavour x kind x registration, failure at the first step (quick: every kind on three
+    #    registration paths, eight representative kinds on all of them; thorough: full product)
+    representative = [("raise", "LookupError"), ("raise", "StopIteration"),
+                      ("raise", "ExceptionGroup"), ("raise", "cf.CancelledError"),
+                      ("raise", "SystemExit"), ("raise", "KeyboardInterrupt"),
+                      ("return", "0"), ("return", "()")]
     for flavour, how, reg in itertools.product(FLAVOURS, kinds, REGISTRATIONS):
         if own_cancellation(flavour, how):
+            continue
+        if tier == "quick" and how not in representative and reg not in (
+                "queued", "outside-early", "service-after"):
             continue
         out.append({"failing": (flavour, how, "first", reg), "bystanders": "none"})
     # 2. failure instants and bystanders on representative kinds
